@@ -77,9 +77,16 @@ pub fn arb_triple(p: TreeParams) -> BoxedStrategy<(M, M, M)> {
         };
         (wrap(pickn(k >> 3)), wrap(pickn(k >> 6)), wrap(pickn(k >> 9)))
     });
+    // adjacent children of one container, and a variant of one of them
+    let siblings = (arb_doc(p), any::<u16>(), vec(arb_mutation(), 1..3)).prop_map(|(a, sel, muts)| {
+        let (x, y) = sibling_pair(&a, sel);
+        let z = apply_mutations(&y, &muts, MutKind::Any);
+        (x, y, z)
+    });
     prop_oneof![
         12 => arb_triple_general(general),
         1 => neighbours,
+        1 => siblings,
     ]
     .boxed()
 }
